@@ -232,7 +232,7 @@ func check(w *world, content []stored, queryIDs []id, triples []id) {
 		}
 	}
 	// ---- governance batch (governance emitter = chain 1, address #1), for several asked-sequence lists
-	for _, asked := range [][]uint64{{0, 1, 2, 9, 10, 11}, {1}, {10, 11}, {}, {2, 0, 1}, {1, 2, 0}, {11, 1, 10, 0}, {10, 0, 11, 1, 9}, {11, 10, 9, 2, 1, 0}, {1, 1, 10}} {
+	for _, asked := range [][]uint64{{0, 1, 2, 9, 10, 11}, {1}, {10, 11}, {}, {2, 0, 1}, {1, 2, 0}, {11, 1, 10, 0}, {10, 0, 11, 1, 9}, {11, 10, 9, 2, 1, 0}, {1, 1, 10}, {1, 1 << 63, 1<<64 - 1}} {
 		atomic.AddInt64(&queries, 1)
 		gb, err := w.rpc.GetGovernanceVAABatch(ctx, &publicrpcv1.GetGovernanceVAABatchRequest{Sequences: asked})
 		if err != nil {
@@ -401,6 +401,11 @@ func main() {
 			}
 		}
 	}
+	// sequences with the top bit set (a sequence is a full 64-bit counter; rendered or parsed as a signed number
+	// it turns negative), on a target chain no gap scan looks at (a scan from 0 would not end)
+	topSeqs := []id{{1, 1, 9, 1 << 63}, {1, 1, 9, 1<<64 - 1}, {1, 1, 9, 1<<63 - 1}, {2, 0, 9, 1 << 63}, {2, 0, 9, 1<<64 - 1}}
+	queryIDs = append(queryIDs, topSeqs...)
+	queryIDs = append(queryIDs, id{1, 1, 9, 3}, id{2, 0, 9, 3})
 	// the storable sub-alphabet: chosen so that every prefix collision has both sides
 	storable := []id{
 		{2, 0, 2, 1}, {2, 0, 2, 10}, {2, 0, 20, 1}, {2, 0, 25, 2}, {2, 0, 255, 0}, {2, 0, 2550, 11}, {2, 0, 4, 1}, {2, 0, 42, 1},
@@ -433,6 +438,9 @@ func main() {
 			}
 		}
 		all = append(all, []stored{{storable[i], 0}, {storable[i], 1}}, []stored{{storable[i], 1}, {storable[i], 0}}, []stored{{storable[i], 0}, {storable[i], 2}}, []stored{{storable[i], 0}, {storable[i], 1}, {storable[i], 0}})
+	}
+	for _, t := range topSeqs {
+		all = append(all, []stored{{t, 0}}, []stored{{t, 0}, {id{1, 1, 0, 1}, 0}, {id{1, 1, 2, 10}, 0}, {id{2, 0, 2, 1}, 0}}, []stored{{id{1, 1, 0, 1}, 0}, {t, 0}, {t, 1}})
 	}
 	// stored values the decoder refuses (empty payload) inside gap-scanned streams: at the bottom, in the middle
 	// and at the top of a stream with a gap, alone, and next to another stream
